@@ -10,7 +10,8 @@ THEOREMS = ['Student.verdict_iff_all_bins', 'Student.oracle_iff_ratio', 'Student
 BUDGET = {'quick': 1200, 'thorough': 20000}
 TIME_LIMIT = {'quick': 50, 'thorough': 800}
 RULE = ('datasets of shape () to 3-d (1-60 bins), 1-3 compared datasets drawn around the reference at 0-6 sigma, errors '
-        '>= 0 with zeros (0/0 bins included), NaN and infinities injected in values and errors of either side, alpha '
+        '>= 0 with zeros (0/0 bins included) and, in 10% of the cases, strictly positive errors whose squares underflow, '
+        'integer-valued datasets given as integer arrays (15%), NaN and infinities injected in values and errors of either side, alpha '
         'log-uniform in (1e-4, 1), ndf None or 1-10000; each case also evaluated swapped, rescaled by a power of two, with '
         'one difference grown and one error shrunk; non-trivial = some but not all bins compatible, or a special value; '
         'distinct = case hash')
